@@ -113,6 +113,9 @@ def _code_default_plain_typ(ir):
 
 TOL["KF-RT-code-default-drops-type"] = lambda k, w, c, ir, o: c == "typ-lost" and (k in ("function", "method") or (k == "class" and w != "returns")) \
     and isinstance(_entry(ir, w).get("default"), str) and _entry(ir, w)["default"].startswith("```") and "[" not in (_entry(ir, w).get("typ") or "")
+# inline_types=False: types go to the docstring, but a parameter without prose has no docstring line - its type is lost
+TOL["KF-RT-noprose-type-not-inline"] = lambda k, w, c, ir, o: k in ("function", "method") and c == "typ-lost" and o.get("inline_types") is False \
+    and w != "returns" and not _entry(ir, w).get("doc")
 TOL_EXC = {
     "KF-RT-code-default-literal-eval-crash": lambda k, ir, exc: exc == "ValueError" and _code_default_plain_typ(ir)
     and k in ("function", "method", "rest", "numpydoc", "google"),
